@@ -38,6 +38,13 @@ def timed(case, seed):
             ev, _ = nc.run_scenario(srv, steps, quiet_s=1.0)
             st = status_of(ev, "e1")
             return st == ["done"], f"eval after an idle interrupt ended with status {st}"
+        if case == "idle-load":
+            # the request after the idle interrupt is a load-file: every kind of request starts with a clean flag
+            steps = base + [(0.4, {"op": "interrupt", "id": "i1", "session": "garden-1"}),
+                            (0.4, {"op": "load-file", "id": "e1", "session": "garden-1", "file": 'print("z") 5', "file-path": "/tmp/verif_c31_load.gdn"})]
+            ev, _ = nc.run_scenario(srv, steps, quiet_s=1.0)
+            st = status_of(ev, "e1")
+            return st == ["done"], f"load-file after an idle interrupt ended with status {st}"
         loop = 'let i = 0 while True { i += 1 }'
         if case == "running":
             steps = base + [(0.3, {"op": "eval", "id": "e1", "session": "garden-1", "code": loop}),
@@ -60,7 +67,7 @@ def run(tier, seed):
     if rc != 0:
         return rc
     # timed sub-checks, evidence is appended by a second Check object? keep simple: fail fast here
-    jobs = [(c, seed * 7 + k) for k in range(3 if tier == "quick" else 12) for c in ("idle", "running", "close")]
+    jobs = [(c, seed * 7 + k) for k in range(3 if tier == "quick" else 12) for c in ("idle", "idle-load", "running", "close")]
     res = pmap(lambda j: timed(*j), jobs, workers=4)
     bad = [(j, msg) for j, (ok, msg) in zip(jobs, res) if not ok]
     if bad:
